@@ -519,6 +519,15 @@ func c12CloseRace(c *Ctx, i int) {
 	after = append(after, e)
 	_, e = f.ReadFrom(bytes.NewReader([]byte("zz")))
 	after = append(after, e)
+	// calls that move no bytes are calls on a closed File all the same (as on an os.File)
+	_, e = f.Write(nil)
+	after = append(after, e)
+	_, e = f.WriteAt([]byte{}, 5)
+	after = append(after, e)
+	_, e = f.Read([]byte{})
+	after = append(after, e)
+	_, e = f.ReadAt(nil, 3)
+	after = append(after, e)
 	cl.Close()
 	peer.mu.Lock()
 	closes, afterClose := peer.closes, peer.afterClose
